@@ -333,7 +333,10 @@ def run_check(pid, tier, base_seed, nproc=None, max_runs=None, write_evidence=Tr
     if max_runs:
         n = min(n, max_runs)
     jobs = [('gen', i) for i in range(n)]
-    n_extra = len(list(check.extra_plans(tier, base_seed)))
+    # (made once, here: the pool workers are forked from this process and inherit the list)
+    _EXTRA_CACHE.clear()
+    _EXTRA_CACHE[(check.id, tier, base_seed)] = list(check.extra_plans(tier, base_seed))
+    n_extra = len(_EXTRA_CACHE[(check.id, tier, base_seed)])
     jobs += [('extra', j) for j in range(n_extra)]
     gate_every = max(1, len(jobs) // max(8, len(jobs) // 50))
     gate_jobs = [j for k, j in enumerate(jobs) if k % gate_every == 0]
